@@ -385,16 +385,76 @@ pub fn sign_produced_cids(t: &mut PeerCidTracker, s: &mut SignatureStore, salt: 
     requires salt.origin() == ORIGIN_PARTICLE_ID()
     ensures r matches Err(e) ==> !e.catchable    // signing_step.rs: the only error is UncatchableError::SigningError
 { unimplemented!() }
-// preparation_step::prepare: its own obligation is below (fn prepare lifted); here the caller sees this contract
-pub uninterp spec fn call_result_over_limit(c: SerializedCallResults, p: RunParameters) -> bool;
+// ---------------------------------------------------------------- preparation_step::prepare / make_exec_ctx (C06.V3, C22)
+//@ lift air/src/execution_step/execution_context/context.rs :: struct ExecCtxIngredients
+//@ derive
+//@ end
+impl ExecutionCtx {
+    // proved on the lifted text in unit `context` (ExecutionCtx::new): the request-id counter is the PREVIOUS data's
+    #[verifier::external_body]
+    pub fn new(prev_ingredients: ExecCtxIngredients, current_ingredients: ExecCtxIngredients, call_results: CallResults,
+               signature_store: SignatureStore, run_parameters: &RunParameters) -> (r: Self)
+        ensures r.last_call_request_id == prev_ingredients.last_call_request_id
+    { unimplemented!() }
+}
+pub struct CallResultsRepr;
+pub struct DeError { pub x: u8 }
+impl CallResultsRepr {
+    #[verifier::external_body]
+    pub fn deserialize(&self, c: &SerializedCallResults) -> Result<CallResults, DeError> { unimplemented!() }
+}
+impl PreparationError {
+    #[verifier::external_body]
+    pub fn call_results_de_failed(e: DeError) -> (r: Self) ensures !r.is_call_result_size() { unimplemented!() }
+}
+// `call_results.values().any(|r| r.result.len() as u64 > limit)`: an iterator adapter chain Verus cannot take; the comparison
+// itself is checked on the real make_exec_ctx by the native job C22.call_results
+pub uninterp spec fn any_result_over(c: CallResults, limit: u64) -> bool;
 #[verifier::external_body]
-pub fn prepare_stub(prev_data: InterpreterData, current_data: InterpreterData, raw_air: &AirStr, call_results: &SerializedCallResults,
-    run_parameters: RunParameters, signature_store: SignatureStore, soft_limits_triggering: &mut SoftLimitsTriggering)
-    -> (r: PreparationResult<PreparationDescriptor>)
+pub fn any_call_result_over(c: &CallResults, limit: u64) -> (r: bool) ensures r == any_result_over(*c, limit) { unimplemented!() }
+pub mod air_parser { #[verifier::external_body] pub fn parse(raw_air: &super::AirStr) -> Result<super::Instruction, super::ParseErr> { unimplemented!() } }
+pub struct KeyFormat { pub x: u8 }
+impl KeyFormat { #[verifier::external_body] pub fn try_from_u8(v: u8) -> Result<KeyFormat, KeyError> { unimplemented!() } }
+impl KeyPair { #[verifier::external_body] pub fn from_secret_key(k: Vec<u8>, f: KeyFormat) -> Result<KeyPair, KeyError> { unimplemented!() } }
+
+//@ lift air/src/preparation_step/preparation.rs :: fn make_exec_ctx
+//@ props C06 C22
+//@ ret r
+//@ sig 1 "PreparationResult<ExecutionCtx<'static>>" => "PreparationResult<ExecutionCtx>"
+//@ rewrite 1 "use crate::preparation_step::sizes_limits_check::handle_limit_exceeding;" => ""
+//@ rewrite 1 ".map_err(PreparationError::call_results_de_failed)?" => ".map_err(|e: DeError| -> (o: PreparationError) ensures !o.is_call_result_size() { PreparationError::call_results_de_failed(e) })?"
+//@ rewrite 1 "if call_results\n        .values()\n        .any(|call_result| call_result.result.len() as u64 > run_parameters.call_result_size_limit)\n    {" => "if any_call_result_over(&call_results, run_parameters.call_result_size_limit) {"
+//@ spec
     ensures
+        // C06.V3: the counter of the new context is the one of the previous data
+        r matches Ok(ctx) ==> ctx.last_call_request_id == prev_ingredients.last_call_request_id,
+        // C22: only the call-result flag can change, and only upwards
         final(soft_limits_triggering).air_size_limit_exceeded == old(soft_limits_triggering).air_size_limit_exceeded,
         final(soft_limits_triggering).particle_size_limit_exceeded == old(soft_limits_triggering).particle_size_limit_exceeded,
-{ unimplemented!() }
+        old(soft_limits_triggering).call_result_size_limit_exceeded ==> final(soft_limits_triggering).call_result_size_limit_exceeded,
+        // hard mode: an oversized call result is an error of the matching kind
+        (r matches Err(e) && e.is_call_result_size()) ==> run_parameters.hard_limit_enabled && final(soft_limits_triggering).call_result_size_limit_exceeded,
+        (r is Ok && !run_parameters.hard_limit_enabled && !old(soft_limits_triggering).call_result_size_limit_exceeded)
+            ==> exists|c: CallResults| final(soft_limits_triggering).call_result_size_limit_exceeded == #[trigger] any_result_over(c, run_parameters.call_result_size_limit),
+//@ end
+
+//@ lift air/src/preparation_step/preparation.rs :: fn prepare
+//@ props C06 C22
+//@ ret r
+//@ sig 1 "pub(crate) fn prepare<'i>(" => "pub fn prepare("
+//@ sig 1 "raw_air: &'i str" => "raw_air: &AirStr"
+//@ sig 1 "PreparationResult<PreparationDescriptor<'static, 'i>>" => "PreparationResult<PreparationDescriptor>"
+//@ rewrite 1 "let air: Instruction<'i> = air_parser::parse(raw_air).map_err(PreparationError::AIRParseError)?;" => "let air: Instruction = air_parser::parse(raw_air).map_err(|e: ParseErr| -> (o: PreparationError) { PreparationError::air_parse_error(e) })?;"
+//@ rewrite 1 "KeyFormat::try_from(run_parameters.key_format).map_err(KeyError::from)?" => "KeyFormat::try_from_u8(run_parameters.key_format).map_err(|e: KeyError| -> (o: PreparationError) { PreparationError::from_key_error(e) })?"
+//@ rewrite 1 "KeyPair::from_secret_key(run_parameters.secret_key_bytes, key_format)?" => "KeyPair::from_secret_key(run_parameters.secret_key_bytes, key_format).map_err(|e: KeyError| -> (o: PreparationError) { PreparationError::from_key_error(e) })?"
+//@ spec
+    ensures
+        // C06.V3: the request-id counter handed to the execution is the PREVIOUS data's, whatever the current data says
+        r matches Ok(d) ==> d.exec_ctx.last_call_request_id == prev_data.last_call_request_id,
+        final(soft_limits_triggering).air_size_limit_exceeded == old(soft_limits_triggering).air_size_limit_exceeded,
+        final(soft_limits_triggering).particle_size_limit_exceeded == old(soft_limits_triggering).particle_size_limit_exceeded,
+//@ end
+
 pub mod farewell {
     pub use super::from_uncatchable_error;
     pub use super::from_success_result;
@@ -419,7 +479,6 @@ pub open spec fn has_new_data(o: InterpreterOutcome) -> bool {
 //@ expand farewell_if_fail crates/air-lib/utils/src/lib.rs
 //@ sig 1 "air: String" => "air: AirStr"
 //@ rewrite 1 "use crate::preparation_step::check_against_size_limits;" => ""
-//@ rewrite 1 "prepare(" => "prepare_stub("
 //@ spec
     requires params.wf()
     ensures
